@@ -407,6 +407,31 @@ def register(S):
         d = deps_of(a)
         return ctx.ret(ArrayVal([IntVal.top(U8, deps=d, tags=frozenset([("be_byte", k)]) | getattr(a, "tags", frozenset())) for k in range(4)], 4))
 
+    @S.pat(r"^core::num::<impl u(16|32|64)>::from_(be|le)_bytes$")
+    def from_xe_bytes(ctx):
+        arr = ctx.args[0]
+        rty = ctx.ret_ty()
+        t = ty_of_json(rty) if rty else None
+        big = ctx.path.endswith("from_be_bytes")
+        if t is None or not isinstance(arr, ArrayVal) or arr.elems is None or len(arr.elems) * 8 != t.bits:
+            return ctx.ret(ctx.top_ret())
+        elems = list(arr.elems)
+        if big:
+            elems = elems[::-1]             # least significant byte first
+        bits = []
+        tags = frozenset()
+        for x in elems:
+            if not isinstance(x, IntVal):
+                return ctx.ret(ctx.top_ret())
+            x = ctx.ip.reduce_int(ctx.st, x)
+            if x.bits is None or any(e is None for e in x.bits[:8]):
+                return ctx.ret(ctx.top_ret())
+            bits.extend(x.bits[:8])
+            tags |= x.tags
+        r = IntVal.from_bits(t, tuple(bits))
+        r.tags = r.tags | tags
+        return ctx.ret(r)
+
     @S.on("core::cmp::max", "core::cmp::Ord::max", "core::cmp::min", "core::cmp::Ord::min")
     def cmp_max(ctx):
         a, b = ctx.args[0], ctx.args[1]
